@@ -20,6 +20,7 @@ def kvNat (ws : List String) (key : String) (d : Nat) : Nat :=
 def parsePut (ws : List String) : PutIn :=
   match ws with
   | "V" :: e :: _ => .valid (e.toNat?.getD 0)
+  | "R" :: e :: _ => .valid (e.toNat?.getD 0)      -- NC_ERANGE is not fatal: the request counts as a completed write
   | "Z" :: _ => .zero
   | "E" :: _ => .argErr
   | "D" :: _ => .drvErr
@@ -27,6 +28,7 @@ def parsePut (ws : List String) : PutIn :=
 def parseVard (ws : List String) : VardIn :=
   match ws with
   | "V" :: e :: _ => .valid (e.toNat?.getD 0)
+  | "R" :: e :: _ => .valid (e.toNat?.getD 0)
   | "N" :: e :: _ => .noData (e.toNat?.getD 0)
   | "E" :: _ => .argErr
   | _ => .noData 0
@@ -44,13 +46,16 @@ def parseOp (line : String) : Option Op :=
   match hd with
   | ["putAll"] => some (.putAll (idx parsePut .zero))
   | ["vardAll"] => some (.vardAll (idx parseVard (.noData 0)))
-  | ["putIndep", r, e] => some (.putIndep (r.toNat?.getD 0) (e.toNat?.getD 0))
-  | ["iput", r, id, isRec, e] =>
-      -- keys of the sorted lead list: in the harness's schema the fixed-size variable begins before the record
-      -- variable, and a record request's offset is at or behind the begin of the record variable
+  | "putIndep" :: r :: e :: _ => some (.putIndep (r.toNat?.getD 0) (e.toNat?.getD 0))
+  | "vardIndep" :: r :: e :: _ => some (.putIndep (r.toNat?.getD 0) (e.toNat?.getD 0))   -- getput_vard, NC_REQ_INDEP: same local update
+  | "iput" :: r :: id :: isRec :: e :: rest =>
+      -- keys of the sorted lead list, from the harness's schema: fvar (fixed) begins before the record variables rvar, qvar,
+      -- svar (16 + 16 + 8 bytes per record, in this order); class R requests go to svar
       let isR := isRec == "1"
+      let toS := rest.contains "R"
       let en := e.toNat?.getD 0
-      some (.iput (r.toNat?.getD 0) (id.toNat?.getD 0) isR en (if isR then 1 else 0) (if isR then en else 0))
+      let vb := if !isR then 0 else if toS then 132 else 100
+      some (.iput (r.toNat?.getD 0) (id.toNat?.getD 0) isR en vb (if isR then vb + 40 * (en - 1) else 0))
   | ["waitAll"] => some (.waitAll (idx parseSel (.ids [])))
   | "wait" :: r :: sel => some (.wait (r.toNat?.getD 0) (parseSel sel))
   | ["fillRec"] => some (.fillRec (idx (fun ws => natOf ws.head? 0) 0))
